@@ -49,6 +49,7 @@ partial def feOf : SX → Option FE
   | .node "inc" [o, .node p []] => do pure (.incr (← feOf o) p)
   | .node "pro" [a] => do pure (.protoOf (← feOf a))
   | .node "rgx" [] => some .regex
+  | .node "hfn" [] => some .hostFn
   | .node "fcc" [.node k []] => k.toNat?.map .fcc
   | .node "acf" [.node k [], f] => do pure (.accFn (k = "s") (← feOf f))
   | .node "fnc" [.node "fn" [.node "_" [], .node "PS" [], .node "V" vs, .node "D" ds, .node "S" ss]] => do
